@@ -502,7 +502,7 @@ Proof.
                              then (SFail (FStdout (HHelp (path s2) inf m detailed)), s2)
                              else (SPanic P_invariant, s2)
                            | (Some (ExVersion v), s2) => (SFail (FStdout (HVersion v)), s2)
-                           | (None, s2) => (SFail (FStderr err), s2)
+                           | (None, s2) => (SFail (FStderr err (Message.render_message err s2 m)), s2)
                            end))).
   { intros err. pose proof (info_eval_reach inf s1 Hh Hv) as Hi.
     destruct (info_eval env inf s1) as [ex s2]. cbn in Hi.
